@@ -17,6 +17,8 @@ package main
 //              holds only values on ONE side of the cutoff and its triangles come from the seam cubes alone (cell 99 → the
 //              neighbour's cell 0); per axis, at corners, both orientations, inverted fields (uniformly-inside block),
 //              cubesPerUnit 1/2/4/10, cutoff 0 / ±¼ cell; MarchParallel vs March;
+//   edge       field bounds exactly on / one before / one after a block boundary (exclusive upper and inclusive lower bound, per
+//              axis, negative blocks), cutoffs ≠ 0: registered blocks (also all-zero ones), cells and surfaces of all variants;
 //   history    2–4 AddField* calls on ONE canvas and attribute with OVERLAPPING domains (same shape twice, shifted
 //              overlapping shapes, a small field inside a big one): after EACH call the canvas cells (read with
 //              reflect/unsafe; all attributes) and the sample multisets of each parallel variant are compared with the
@@ -117,8 +119,8 @@ func (sh c10Shape) field(s *c10Sampler, h float64) marching.Field {
 	return marching.Field{Domain: geometry.NewAABB(vector3.New(sh.cx, sh.cy, sh.cz), ext), Float1Functions: fns}
 }
 
-// c10Dump reads the cells of the canvas (unexported state, via reflect/unsafe): one token "cx,cy,cz:index:value" per
-// non-zero cell of the position attribute ("attr|cx,cy,cz:index:value" for any other attribute), sorted.
+// c10Dump reads the canvas (unexported state, via reflect/unsafe): one token "B:cx,cy,cz" per registered block and one token
+// "cx,cy,cz:index:value" per non-zero cell of the position attribute ("attr|cx,cy,cz:index:value" for any other attribute), sorted.
 func c10Dump(cv *marching.MarchingCanvas) []string {
 	v := reflect.ValueOf(cv).Elem()
 	fd := v.FieldByName("float1Data")
@@ -134,6 +136,9 @@ func c10Dump(cv *marching.MarchingCanvas) []string {
 		for pit.Next() {
 			k := pit.Key()
 			cx, cy, cz := k.FieldByName("X").Int(), k.FieldByName("Y").Int(), k.FieldByName("Z").Int()
+			// every REGISTERED block, also one that holds only zeros (March walks the seam cubes of a block only when the
+			// neighbouring block is registered)
+			out = append(out, fmt.Sprintf("%sB:%d,%d,%d", prefix, cx, cy, cz))
 			for idx, val := range data[pit.Value().Int()] {
 				if val != 0 {
 					out = append(out, fmt.Sprintf("%s%d,%d,%d:%d:%s", prefix, cx, cy, cz, idx, F(val)))
@@ -288,10 +293,12 @@ func (c *Ctx) c10Canvas(label string, cpu float64, shapes []c10Shape, cutoff flo
 			seqCanvas = cv
 			blocks := map[string]bool{}
 			for _, s := range seqDumps[len(shapes)-1] {
-				blocks[s[strings.Index(s, "|")+1:strings.Index(s, ":")]] = true
+				if strings.Contains(s, "B:") {
+					blocks[s] = true
+				}
 			}
 			if opt.cells {
-				c.Note(fmt.Sprintf("blocks-with-data=%d", len(blocks)))
+				c.Note(fmt.Sprintf("registered-blocks=%d", len(blocks)))
 			}
 			c.Note("family=" + map[bool]string{true: "exact-positions", false: "weld-cells"}[exact])
 			m, r := c10MarchWhy(cv, cutoff)
@@ -388,7 +395,7 @@ func runC10M(c *Ctx) {
 		}
 		return sh
 	}
-	nPlace, nSeam, nHist := (c.N+1)/2, c.N, (c.N+1)/2+1 // every history kind in every run
+	nPlace, nSeam, nHist, nEdge := (c.N+1)/2, c.N, (c.N+1)/2+1, c.N // every history kind in every run
 	first := c.Rng.Intn(len(places))
 	for k := 0; k < nPlace; k++ {
 		p, cpu := places[(first+k)%len(places)], cpus[c.Rng.Intn(len(cpus))]
@@ -455,6 +462,40 @@ func runC10M(c *Ctx) {
 		c.Note(fmt.Sprintf("cutoff=%g", cut))
 		c.Note(fmt.Sprintf("cpu=%g", cpu))
 		c.c10Canvas(label, cpu, []c10Shape{sh}, cut/cpu, c10Opts{marchVariants: false, cells: false})
+	}
+
+	// field bounds exactly on / one before / one after a block boundary: the padded domain of a field is
+	// [floor(min·cpu)-1, ceil(max·cpu)+1) — the upper bound is EXCLUSIVE, so when it is a multiple of 100 the block that starts
+	// there is enumerated with an empty sample range and still registered (all zeros) by AddField; marched at a cutoff that
+	// puts zero on the other side of the edge samples, the seam cubes next to that block carry triangles.  Per axis, lower
+	// and upper bound, negative blocks too; all three AddField variants, canvases compared block for block and as surfaces.
+	firstEdge := c.Rng.Intn(18)
+	for j := 0; j < nEdge; j++ {
+		jj := firstEdge + j
+		axis, upper, delta := jj%3, (jj/3)%2 == 0, float64((jj/6)%3-1) // delta -1, 0, +1 cells
+		if j < 3 {
+			axis, upper, delta = j, true, 0 // in every run: the exclusive upper bound EXACTLY on a block boundary, each axis
+		}
+		B := []float64{100, 0, -100, 200}[c.Rng.Intn(4)]
+		cpu := cpus[c.Rng.Intn(len(cpus))]
+		kind := []string{"sdf", "l1"}[jj%2]
+		k := float64(2 + c.Rng.Intn(3))
+		// domain in cells: [ctr - k - 1, ctr + k + 1]; padded: lower = ctr-k-2, exclusive upper = ctr+k+2 (integers)
+		bound := B + delta
+		at := bound - k - 2 // exclusive upper bound lands on `bound`
+		if !upper {
+			at = bound + k + 2 // inclusive lower bound lands on `bound`
+		}
+		ctr := [3]float64{40 + float64(c.Rng.Intn(20)), 40 + float64(c.Rng.Intn(20)), 40 + float64(c.Rng.Intn(20))}
+		ctr[axis] = at
+		sh := c10Shape{kind: kind, cx: ctr[0] / cpu, cy: ctr[1] / cpu, cz: ctr[2] / cpu, r: k / cpu, ax: 1, ay: 1, az: 1}
+		cut := []float64{0.5, 0.5, -0.25, 0}[c.Rng.Intn(4)] // in cells; 0.5: untouched zeros are INSIDE, edge samples (≈ 1) outside
+		label := fmt.Sprintf("edge/%s/%s/delta%+g/B%g/cpu%g/%s/cut%g", []string{"x", "y", "z"}[axis], map[bool]string{true: "upper", false: "lower"}[upper], delta, B, cpu, kind, cut)
+		c.Note("category=edge")
+		c.Note(fmt.Sprintf("edge-delta=%+g", delta))
+		c.Note("edge-side=" + map[bool]string{true: "upper", false: "lower"}[upper])
+		c.Note(fmt.Sprintf("cutoff=%g", cut))
+		c.c10Canvas(label, cpu, []c10Shape{sh}, cut/cpu, c10Opts{marchVariants: true, cells: true})
 	}
 
 	// accumulation histories: overlapping domains on one canvas and attribute
